@@ -472,6 +472,7 @@ type sbClient struct {
 	num  *valueNumbering
 	bad  string
 	seen bool
+	lenOf map[int]int // resolved argument id -> id of the first len() of it
 }
 
 func (k *sbClient) Key(s sbState) string {
@@ -489,6 +490,20 @@ func (k *sbClient) resolve(s sbState, v ssa.Value) int {
 			break
 		}
 		v = cv.X
+	}
+	// go/ssa does not share common subexpressions: every len(x) is a value of its own
+	if c, ok := v.(*ssa.Call); ok {
+		if bi, ok := c.Common().Value.(*ssa.Builtin); ok && bi.Name() == "len" && len(c.Common().Args) == 1 {
+			aid := k.resolve(s, c.Common().Args[0])
+			if k.lenOf == nil {
+				k.lenOf = map[int]int{}
+			}
+			if first, ok := k.lenOf[aid]; ok {
+				return first
+			}
+			k.lenOf[aid] = k.num.id(v)
+			return k.num.id(v)
+		}
 	}
 	id := k.num.id(v)
 	for i := 0; i < 8; i++ {
